@@ -50,10 +50,28 @@ fn run_race(cfg: &str, which: u8, rt: &tokio::runtime::Runtime, out: &mut Vec<Fa
     };
     if let Ok(Some(what)) = r {
         out.push(Failure {
-            clause: (if which == 0 { "directory_lookup/Directory.lookup#E_one_epoch" } else { "directory_lookup/Directory.key_history__tail#E_updates" }).into(),
+            clause: (if which % 2 == 0 { "directory_lookup/Directory.lookup#E_one_epoch" } else { "directory_lookup/Directory.key_history__head#E_one_epoch" }).into(),
             case: vec!["c13".into(), "race".into(), cfg.into(), which.to_string()],
-            input: format!("[{cfg}] uncached instance at epoch 2 serves {}; right after its read of the epoch record another instance over the same database publishes epoch 3", if which == 0 { "lookup(a)" } else { "key_history(a, Complete)" }),
+            input: format!("[{cfg}] uncached instance at epoch 2 serves {}; {} another instance over the same database publishes epoch 3", if which % 2 == 0 { "lookup(a)" } else { "key_history(a, Complete)" }, if which < 2 { "right after its read of the epoch record (at its first read of user records)" } else { "right BEFORE its read of the epoch record" }),
             expected: "an error, or an answer that verifies against the (epoch, root hash) pair returned with it - never a proof stitched together from two epochs".into(),
+            observed: what,
+            finding_id: None,
+        });
+    }
+}
+
+fn run_commit_reader(cfg: &str, rt: &tokio::runtime::Runtime, out: &mut Vec<Failure>) {
+    let r = if cfg == "whatsapp_v1" {
+        rt.block_on(akd::vx_export::c13_reader_after_epoch_record::<WhatsAppV1Configuration>())
+    } else {
+        rt.block_on(akd::vx_export::c13_reader_after_epoch_record::<ExperimentalConfiguration<ExampleLabel>>())
+    };
+    if let Ok(Some(what)) = r {
+        out.push(Failure {
+            clause: "manager/StorageManager.write_committed_records#E_commit".into(),
+            case: vec!["c13".into(), "commitreader".into(), cfg.into()],
+            input: format!("[{cfg}] epoch 1 = {{a,b,c}}; publish [(a,a2),(d,d1)]; right after the storage operation that carries the epoch record of epoch 2 a fresh uncached instance serves lookup(a)"),
+            expected: "an answer that verifies: the epoch record is written LAST, in the one storage operation of the commit".into(),
             observed: what,
             finding_id: None,
         });
@@ -63,7 +81,8 @@ fn run_race(cfg: &str, which: u8, rt: &tokio::runtime::Runtime, out: &mut Vec<Fa
 pub fn search(_seed: u64, full: bool, rt: &tokio::runtime::Runtime) -> SearchResult {
     let mut out = vec![];
     let mut n = 0;
-    for cfg in ["whatsapp_v1", "experimental"] { for which in 0..2u8 { run_race(cfg, which, rt, &mut out); n += 1; } }
+    for cfg in ["whatsapp_v1", "experimental"] { for which in 0..4u8 { run_race(cfg, which, rt, &mut out); n += 1; } }
+    for cfg in ["whatsapp_v1", "experimental"] { run_commit_reader(cfg, rt, &mut out); n += 1; }
     for cfg in ["whatsapp_v1", "experimental"] {
         for lag in 0..=(if full { 5 } else { 3 }) { for cached in [false, true] { run_proofs(cfg, lag, cached, rt, &mut out); n += 1; } }
     }
@@ -73,11 +92,11 @@ pub fn search(_seed: u64, full: bool, rt: &tokio::runtime::Runtime) -> SearchRes
             n += 1;
         }
     }
-    SearchResult { evaluations: n, failures: out, summary: "read-only directory lagging 0..k epochs behind storage asks for its epoch hash (both configurations)".into() }
+    SearchResult { evaluations: n, failures: out, summary: "BOUNDED: a lookup / key_history racing a publish by another instance (the publish runs right after, and right BEFORE, the request's read of the epoch record); a fresh reader served right after the storage operation that carries the epoch record of a commit; read-only directory lagging 0..k epochs behind storage asks for its epoch hash and for proofs (both configurations)".into() }
 }
 
 pub fn replay(case: &[&str], rt: &tokio::runtime::Runtime) -> (bool, String) {
     let mut out = vec![];
-    if case[0] == "race" { run_race(case[1], case[2].parse().unwrap(), rt, &mut out); } else if case[0] == "proofs" { run_proofs(case[1], case[2].parse().unwrap(), case.get(3).map(|s| *s == "1").unwrap_or(false), rt, &mut out); } else { run(case[0], case[1].parse().unwrap(), rt, &mut out); }
+    if case[0] == "commitreader" { run_commit_reader(case[1], rt, &mut out); } else if case[0] == "race" { run_race(case[1], case[2].parse().unwrap(), rt, &mut out); } else if case[0] == "proofs" { run_proofs(case[1], case[2].parse().unwrap(), case.get(3).map(|s| *s == "1").unwrap_or(false), rt, &mut out); } else { run(case[0], case[1].parse().unwrap(), rt, &mut out); }
     match out.first() { Some(f) => (true, format!("{}: expected {}, observed {}", f.input, f.expected, f.observed)), None => (false, "holds".into()) }
 }
